@@ -236,6 +236,15 @@ def oracle_enter(case, o):
 
 def oracle_requests(case, o, upto=None):
     """exactly one terminal message per request; server messages once, in order"""
+    v = _oracle_requests(case, o)
+    if v is not None and (v[0] == "server-messages/lost" or v[0].startswith("terminal/not-the-answer")) and G.silent_longer_than_timeout(case):
+        # what is lost comes after the event stream was silent for longer than the request timeout:
+        # the class of defect recorded as `event-stream-read-timeout`
+        return ("event-stream-read-timeout", "after a silence longer than the timeout on the event stream: " + v[1], v[2])
+    return v
+
+
+def _oracle_requests(case, o):
     if o.get("deadlock") is not None:
         return oracle_release(case, o)
     # the connection that was yielded is one on which requests reach the ANNOUNCED endpoint
